@@ -530,6 +530,9 @@ ASSUMPTIONS = [
     "A4 builtins and library calls satisfy the assumed contracts (trusted_base)",
     "A5 lru_cache / methodtools.lru_cache are identities on values",
     "A6 warnings.warn does not raise",
+    "A7 set / dict membership of library objects is decided with __eq__ alone (CPython also consults __hash__): assumes "
+    "hash and eq agree - checked statically for the memoised Parent class, and Parent.equals_except_location has its own "
+    "contract",
     "meta-lemmas L1 (character-wise percent encoder is inverted by percent decoding, any length), L2 (stable sort by "
     "start keeps a parent row before its child rows, any number of rows) and H (frame + memo invariant => answers "
     "independent of the call history, any history) are machine-checked in Lean 4 (lemmas/Lemmas.lean, run by "
@@ -552,8 +555,8 @@ NOT_COVERED = {
             "gap_list / gaps_location / extend_absolute / extend_relative / shift_position / reverse / merge_overlapping: "
             "proved for 2 (quick) and 3 (thorough) blocks that may overlap or nest, no contract for arbitrary block counts",
             "random pairs over large genomes (replaced by the unbounded single-interval proofs)"],
-    "C03": ["Sequence.reverse_complement / append of sequences located on COMPOUND intervals symbolically (single-interval "
-            "locations are proved on symbolic text; compound ones are in the bounded tier)"],
+    "C03": ["Sequence.append of sequences located on COMPOUND intervals symbolically (single-interval locations and "
+            "reverse_complement on two-block locations are proved on symbolic text)"],
     "C08": ["marshmallow schema load/dump through JSON (io/models.py not importable)"],
     "C11": ["parse-back leg: BOUNDED only (natively through gffutils + _parse_genes; the marshmallow schema step and the "
             "re-export of the parsed model need io/models.py, which cannot be imported), FASTA section"],
